@@ -135,6 +135,11 @@ def oracle_upf_size(case, impl):
     return None
 
 
+def _oracle_tcpstream(case, impl):
+    from props.c01 import oracle_tcpstream
+    return oracle_tcpstream(case, impl)
+
+
 SPEC = dict(
         lean_module="NV.Props.C05",
         level_text="Kernel-checked theorems for every (advertised size, response length) pair: reply length <= max(512, advertised), "
@@ -145,7 +150,9 @@ SPEC = dict(
                     nontrivial=lambda c, i: len(i) > 8),
                # the same rules with the real upstream transports in between (DoH over HTTP/2, plain DNS over UDP)
                dict(name="upfault", n_quick=70, n_thorough=1500, shards_thorough=8, oracle=oracle_upf_size, timeout=1200,
-                    nontrivial=lambda c, i: True)],
+                    nontrivial=lambda c, i: True),
+               # one TCP connection as a stream; op stallread: pipelined 60000-byte replies to a client that reads late
+               dict(name="tcpstream", n_quick=60, n_thorough=2000, shards_thorough=2, oracle=_oracle_tcpstream, timeout=900)],
         trusted=COMMON_TRUST + ["kernel UDP/TCP loopback delivery", "translator /verif/extract (constants, truncation block)"],
         assumptions=["advertised sizes above 65507 are outside the property's quantifier (a UDP datagram cannot carry them)"],
 )
